@@ -226,11 +226,27 @@ Section Facts.
     wp I (os_rename P a b) Q f t.
   Proof. intros E ? ?. intros tr Htr. unfold os_rename, step. cbn. rewrite E. cbn. split; auto. constructor; auto. Qed.
 
+  Lemma wp_write I l q x (Q : post _) f t :
+    I (set q x f) -> Q (inl tt) (set q x f) t -> wp I (step l (write_file P q x)) Q f t.
+  Proof. intros. prim. Qed.
+
+  (** the non-atomic copy: the invariant must hold in the two partial states
+      (destination empty, destination a truncated prefix) as well; whatever
+      was at the destination before has no influence on any of the states *)
   Lemma wp_copy I a v x (Q : post _) f t :
     lookup a f = Some x ->
+    I (set (Backup v) Empty f) -> I (set (Backup v) (partial_copy P) f) ->
     I (set (Backup v) x f) -> Q (inl tt) (set (Backup v) x f) t ->
     wp I (shutil_copy P a v) Q f t.
-  Proof. intros E ? ?. intros tr Htr. unfold shutil_copy, step. cbn. rewrite E. cbn. split; auto. constructor; auto. Qed.
+  Proof.
+    intros E H1 H2 H3 HQ.
+    assert (W : wp I (copy_steps P v x) Q f t).
+    { unfold copy_steps.
+      apply wp_bind, wp_write; [exact H1|]. cbv beta iota.
+      apply wp_bind, wp_write; rewrite set_set; [exact H2|]. cbv beta iota.
+      apply wp_write; rewrite set_set; assumption. }
+    intros tr Htr. unfold shutil_copy. cbn [w_fs]. rewrite E. exact (W tr Htr).
+  Qed.
 
   Lemma wp_connect I q x (Q : post _) f t :
     lookup q f = Some x -> I f -> Q (inl tt) f None -> wp I (sqlite_connect P q) Q f t.
@@ -651,18 +667,25 @@ Section Facts.
     apply (wp_view _ Main d); [unfold cur; now rewrite Hl | auto].
   Qed.
 
+  (** the file systems a crash before, inside or after the backup copy of
+      content [x] to [Backup v] can leave, when nothing else is written *)
+  Definition copy_states (v : Z) x f f' : Prop :=
+    f' = f \/ f' = set (Backup v) Empty f \/ f' = set (Backup v) (partial_copy P) f \/
+    f' = set (Backup v) x f.
+
   Lemma wp_too_old schema ups target d v rest f :
     lookup Main f = Some (Db d) -> fk_ok (payload d) = true ->
     has_table "version" (objects d) = true -> version_rows d = v :: rest ->
     v < target -> find_upgrader ups (v + 1) = None ->
-    wp (fun f' => f' = f \/ f' = set (Backup v) (Db d) f) (get_db schema ups target)
+    wp (copy_states v (Db d) f) (get_db schema ups target)
        (fun r f' _ => r = inr XDBError /\ f' = set (Backup v) (Db d) f) f None.
   Proof.
-    intros Hl Hfk Hv Hr Hlt Hu. apply (wp_get_db_existing _ _ _ _ (Db d)); [exact Hl | now left |].
+    intros Hl Hfk Hv Hr Hlt Hu. unfold copy_states.
+    apply (wp_get_db_existing _ _ _ _ (Db d)); [exact Hl | now left |].
     unfold open_result. cbn [as_db]. rewrite Hfk. intros d' Hd. inversion Hd. subst d'.
     unfold sel_result. rewrite Hv, Hr.
     replace (v <? target) with true by (symmetry; apply Z.ltb_lt; lia).
-    apply wp_bind. apply (wp_copy _ Main v (Db d)); [exact Hl | now right |]. cbv beta iota.
+    apply wp_bind. apply (wp_copy _ Main v (Db d)); [exact Hl | tauto | tauto | tauto |]. cbv beta iota.
     destruct (Z.to_nat (target - v)) as [|n] eqn:En; [lia|]. cbn [upgrade_loop].
     replace (v <? target) with true by (symmetry; apply Z.ltb_lt; lia). rewrite Hu.
     apply wp_bind, wp_raise. auto.
@@ -762,14 +785,16 @@ Section Facts.
   Qed.
 
   (** an older version for which no upgrader exists: DBError; dbfile itself is
-      untouched, but the backup copy has been written by then *)
+      untouched, but the backup copy has been written by then (a crash can
+      leave it empty or truncated: the copy is not atomic) *)
   Theorem reject_too_old schema ups target d v rest f :
     lookup Main f = Some (Db d) -> fk_ok (payload d) = true ->
     has_table "version" (objects d) = true -> version_rows d = v :: rest ->
     v < target -> find_upgrader ups (v + 1) = None ->
     run_all (get_db schema ups target) f = (inr XDBError, set (Backup v) (Db d) f) /\
     forall k, let fk := run_prefix k (get_db schema ups target) f in
-              fk = f \/ fk = set (Backup v) (Db d) f.
+              fk = f \/ fk = set (Backup v) Empty f \/ fk = set (Backup v) (partial_copy P) f \/
+              fk = set (Backup v) (Db d) f.
   Proof.
     intros Hl Hfk Hv Hr Hlt Hu.
     pose proof (wp_too_old schema ups target d v rest f Hl Hfk Hv Hr Hlt Hu) as H. split.
@@ -872,7 +897,12 @@ Section Facts.
 
     Definition f_backed f : fs := set (Backup vo) (Db d) f.
     Definition f_upgraded f : fs := set Main (Db upgraded) (f_backed f).
-    Definition Iupgrade f f' : Prop := f' = f \/ f' = f_backed f \/ f' = f_upgraded f.
+    (** the backup while it is being written (the copy is not atomic) *)
+    Definition f_copy_empty f : fs := set (Backup vo) Empty f.
+    Definition f_copy_partial f : fs := set (Backup vo) (partial_copy P) f.
+    (** the file systems a crash can leave *)
+    Definition Iupgrade f f' : Prop :=
+      f' = f \/ f' = f_copy_empty f \/ f' = f_copy_partial f \/ f' = f_backed f \/ f' = f_upgraded f.
 
     Lemma wp_upgrade f :
       lookup Main f = Some (Db d) ->
@@ -884,7 +914,10 @@ Section Facts.
       unfold open_result. cbn [as_db]. rewrite Hfk. intros d0 Hd0. inversion Hd0. subst d0.
       unfold sel_result. rewrite Hvd, Hrows.
       replace (vo <? target) with true by (symmetry; apply Z.ltb_lt; lia).
-      apply wp_bind. apply (wp_copy _ Main vo (Db d)); [exact Hl | right; now left |]. cbv beta iota.
+      apply wp_bind.
+      apply (wp_copy _ Main vo (Db d));
+        [exact Hl | right; now left | right; right; now left | right; right; right; now left |].
+      cbv beta iota.
       fold (f_backed f).
       assert (Hl1 : lookup Main (f_backed f) = Some (Db d))
         by (unfold f_backed; rewrite lookup_set_other by discriminate; exact Hl).
@@ -895,11 +928,11 @@ Section Facts.
       apply wp_bind, wp_in_txn. cbv beta iota.
       apply wp_bind, wp_ret. cbv beta iota.
       rewrite Hu. cbn [DbFiles.run_stmts].
-      apply wp_bind. apply (wp_sql_begin _ Main d); [unfold cur; now rewrite Hl1 | right; now left |].
+      apply wp_bind. apply (wp_sql_begin _ Main d); [unfold cur; now rewrite Hl1 | right; right; right; now left |].
       cbv beta iota.
-      apply (wp_run_txn_app _ Main body [Commit] d upgraded); [exact Hb | right; now left |].
+      apply (wp_run_txn_app _ Main body [Commit] d upgraded); [exact Hb | right; right; right; now left |].
       cbn [DbFiles.run_stmts].
-      apply wp_bind. apply wp_sql_commit; [right; now right|]. fold (f_upgraded f). cbv beta iota.
+      apply wp_bind. apply wp_sql_commit; [right; right; right; now right|]. fold (f_upgraded f). cbv beta iota.
       apply wp_ret. cbv beta iota.
       apply wp_bind, wp_py_commit_none. cbv beta iota.
       apply wp_ret. cbv beta iota. rewrite Z.eqb_refl.
@@ -932,10 +965,67 @@ Section Facts.
       - intros q H1 H2. now rewrite !lookup_set_other.
     Qed.
 
-    (** C20, interrupted: after a crash behind any atomic step, dbfile holds a
-        database with the old payload, and simply starting again ends exactly
-        where the uninterrupted run ends: same outcome, same file system
-        (including the backup, which again equals the old file) *)
+    (** C20, "a byte-identical copy of the old file next to it": when the run
+        completes, the file at the backup path IS the old main file (equal as
+        [file] values: same objects, same version rows, same payload) *)
+    Theorem backup_identical f :
+      lookup Main f = Some (Db d) ->
+      lookup (Backup vo) (snd (run_all (get_db sn ups target) f)) = lookup Main f.
+    Proof.
+      intros Hl. rewrite (upgrade_exact f Hl), Hl. cbn [snd]. unfold f_upgraded, f_backed.
+      rewrite lookup_set_other by discriminate. apply lookup_set_same.
+    Qed.
+
+    (** what is at the backup path beforehand has no influence at all: the run
+        ends exactly as it ends when there is no file there *)
+    Lemma f_upgraded_remove f : f_upgraded (remove (Backup vo) f) = f_upgraded f.
+    Proof. unfold f_upgraded, f_backed, set. now rewrite remove_remove. Qed.
+
+    Lemma f_upgraded_set y f : f_upgraded (set (Backup vo) y f) = f_upgraded f.
+    Proof. unfold f_upgraded, f_backed. now rewrite set_set. Qed.
+
+    (** C20, retry after a crash inside the copy (or any other leftover at the
+        backup path): next to the version-[vo] database lies a backup file with
+        ANY content [y] -- empty, a truncated prefix, a stale or foreign file.
+        The run still ends with the correctly upgraded database at dbfile and
+        with the backup equal to the old main file: the partial backup is
+        overwritten, not kept and not restored from; outcome and final file
+        system are those of the run without any file at the backup path. *)
+    Theorem partial_backup_overwritten f y :
+      lookup Main f = Some (Db d) -> lookup (Backup vo) f = Some y ->
+      exists d' f',
+        run_all (get_db sn ups target) f = (inl d', f') /\
+        version_rows d' = [target] /\
+        same_objs (objects d') (created sn) = true /\
+        payload d' = payload d /\
+        lookup Main f' = Some (Db d') /\
+        lookup (Backup vo) f' = Some (Db d) /\
+        (forall q, q <> Main -> q <> Backup vo -> lookup q f' = lookup q f) /\
+        run_all (get_db sn ups target) f = run_all (get_db sn ups target) (remove (Backup vo) f).
+    Proof.
+      intros Hl _. destruct (upgrade_result f Hl) as [d' [f' [H1 [H2 [H3 [H4 [H5 [H6 H7]]]]]]]].
+      exists d', f'. repeat (split; [assumption|]).
+      assert (Hl' : lookup Main (remove (Backup vo) f) = Some (Db d))
+        by (rewrite lookup_remove_other by discriminate; exact Hl).
+      now rewrite (upgrade_exact f Hl), (upgrade_exact _ Hl'), f_upgraded_remove.
+    Qed.
+
+    (** the file systems a crash behind any atomic step can leave: the initial
+        one, the backup empty (created/truncated), the backup a truncated
+        prefix, the backup complete, the upgrade committed.  dbfile is written
+        by the commit only. *)
+    Theorem upgrade_crash_states f k :
+      lookup Main f = Some (Db d) ->
+      let fk := run_prefix k (get_db sn ups target) f in
+      fk = f \/ fk = set (Backup vo) Empty f \/ fk = set (Backup vo) (partial_copy P) f \/
+      fk = set (Backup vo) (Db d) f \/ fk = set Main (Db upgraded) (set (Backup vo) (Db d) f).
+    Proof. intros Hl. apply (wp_prefix _ _ _ _ k (wp_upgrade f Hl)). now left. Qed.
+
+    (** C20, interrupted: after a crash behind any atomic step -- the two steps
+        inside the backup copy included -- dbfile holds a database with the old
+        payload, and simply starting again ends exactly where the
+        uninterrupted run ends: same outcome, same file system (including the
+        backup, which again equals the old file: a partial one is overwritten) *)
     Theorem upgrade_crash_safe f k :
       lookup Main f = Some (Db d) ->
       let fk := run_prefix k (get_db sn ups target) f in
@@ -944,18 +1034,47 @@ Section Facts.
     Proof.
       intros Hl fk. destruct upgrade_parts as [body [_ [Hd' [_ [_ [Hvd _]]]]]].
       assert (HI : Iupgrade f fk) by (apply (wp_prefix _ _ _ _ k (wp_upgrade f Hl)); now left).
-      assert (Hl1 : lookup Main (f_backed f) = Some (Db d))
-        by (unfold f_backed; rewrite lookup_set_other by discriminate; exact Hl).
+      assert (Hset : forall y, lookup Main (set (Backup vo) y f) = Some (Db d))
+        by (intros y; rewrite lookup_set_other by discriminate; exact Hl).
       rewrite (upgrade_exact f Hl).
-      destruct HI as [-> | [-> | ->]].
+      destruct HI as [-> | [-> | [-> | [-> | ->]]]].
       - split; [eauto|]. now apply upgrade_exact.
-      - split; [eauto|]. rewrite (upgrade_exact _ Hl1). unfold f_upgraded, f_backed. now rewrite set_set.
+      - split; [eauto|]. unfold f_copy_empty. now rewrite (upgrade_exact _ (Hset _)), f_upgraded_set.
+      - split; [eauto|]. unfold f_copy_partial. now rewrite (upgrade_exact _ (Hset _)), f_upgraded_set.
+      - split; [eauto|]. unfold f_backed. now rewrite (upgrade_exact _ (Hset _)), f_upgraded_set.
       - assert (Hl2 : lookup Main (f_upgraded f) = Some (Db upgraded)) by apply lookup_set_same.
         split; [exists upgraded; split; [exact Hl2 | now rewrite Hd']|].
         destruct (open_preserves sn ups target upgraded [] _ Hl2) as [H _]; auto.
         + now rewrite Hd'.
         + rewrite Hd'. cbn [objects]. rewrite has_table_app, Hvd. reflexivity.
         + now rewrite Hd'.
+    Qed.
+
+    (** C20, a crash inside the copy in particular: whenever the crash has left
+        the backup empty or truncated, the next start finds the old database
+        untouched at dbfile, completes the upgrade and leaves a backup equal
+        to the old file *)
+    Corollary copy_crash_retry f k y :
+      lookup Main f = Some (Db d) ->
+      let fk := run_prefix k (get_db sn ups target) f in
+      lookup (Backup vo) fk = Some y -> y <> Db d ->
+      lookup Main fk = Some (Db d) /\
+      fst (run_all (get_db sn ups target) fk) = inl upgraded /\
+      lookup Main (snd (run_all (get_db sn ups target) fk)) = Some (Db upgraded) /\
+      lookup (Backup vo) (snd (run_all (get_db sn ups target) fk)) = Some (Db d).
+    Proof.
+      intros Hl fk Hy Hne.
+      destruct (upgrade_crash_safe f k Hl) as [_ Hrun]. fold fk in Hrun. rewrite Hrun, (upgrade_exact f Hl).
+      cbn [fst snd]. split; [|split; [reflexivity|split]].
+      - pose proof (upgrade_crash_states f k Hl) as HI. fold fk in HI.
+        destruct HI as [E | [E | [E | [E | E]]]]; rewrite E in *.
+        + exact Hl.
+        + rewrite lookup_set_other by discriminate; exact Hl.
+        + rewrite lookup_set_other by discriminate; exact Hl.
+        + rewrite lookup_set_same in Hy. congruence.
+        + rewrite lookup_set_other, lookup_set_same in Hy by discriminate. congruence.
+      - apply lookup_set_same.
+      - unfold f_upgraded, f_backed. rewrite lookup_set_other by discriminate. apply lookup_set_same.
     Qed.
   End Upgrade.
 
@@ -1001,6 +1120,75 @@ Section Facts.
     destruct Hin as [E|[]]. inversion E. subst vo' so'.
     intros. eapply upgrade_crash_safe; eauto.
   Qed.
+
+  Theorem backup_identical_inst olds ups sn target vo so d rest f :
+    upgrade_inst_ok olds ups sn target = true -> In (vo, so) olds ->
+    same_objs (objects d) (created so) = true -> version_rows d = vo :: rest ->
+    fk_ok (payload d) = true -> lookup Main f = Some (Db d) ->
+    lookup (Backup vo) (snd (run_all (get_db sn ups target) f)) = lookup Main f.
+  Proof.
+    intros Hi Hin. destruct (upgrade_inst_parts _ _ _ _ Hi) as [vo' [so' [u [-> [Hu Hf]]]]].
+    destruct Hin as [E|[]]. inversion E. subst vo' so'.
+    intros. eapply backup_identical; eauto.
+  Qed.
+
+  Theorem partial_backup_overwritten_inst olds ups sn target vo so d rest f y :
+    upgrade_inst_ok olds ups sn target = true -> In (vo, so) olds ->
+    same_objs (objects d) (created so) = true -> version_rows d = vo :: rest ->
+    fk_ok (payload d) = true -> lookup Main f = Some (Db d) -> lookup (Backup vo) f = Some y ->
+    exists d' f',
+      run_all (get_db sn ups target) f = (inl d', f') /\
+      version_rows d' = [target] /\
+      same_objs (objects d') (created sn) = true /\
+      payload d' = payload d /\
+      lookup Main f' = Some (Db d') /\
+      lookup (Backup vo) f' = Some (Db d) /\
+      (forall q, q <> Main -> q <> Backup vo -> lookup q f' = lookup q f) /\
+      run_all (get_db sn ups target) f = run_all (get_db sn ups target) (remove (Backup vo) f).
+  Proof.
+    intros Hi Hin. destruct (upgrade_inst_parts _ _ _ _ Hi) as [vo' [so' [u [-> [Hu Hf]]]]].
+    destruct Hin as [E|[]]. inversion E. subst vo' so'.
+    intros. eapply partial_backup_overwritten; eauto.
+  Qed.
+
+  Theorem upgrade_crash_states_inst olds ups sn target vo so d rest f k :
+    upgrade_inst_ok olds ups sn target = true -> In (vo, so) olds ->
+    same_objs (objects d) (created so) = true -> version_rows d = vo :: rest ->
+    fk_ok (payload d) = true -> lookup Main f = Some (Db d) ->
+    let fk := run_prefix k (get_db sn ups target) f in
+    exists d', fst (run_all (get_db sn ups target) f) = inl d' /\
+      (fk = f \/ fk = set (Backup vo) Empty f \/ fk = set (Backup vo) (partial_copy P) f \/
+       fk = set (Backup vo) (Db d) f \/ fk = set Main (Db d') (set (Backup vo) (Db d) f)).
+  Proof.
+    intros Hi Hin. destruct (upgrade_inst_parts _ _ _ _ Hi) as [vo' [so' [u [-> [Hu Hf]]]]].
+    destruct Hin as [E|[]]. inversion E. subst vo' so'.
+    intros Ho Hr Hk Hl fk.
+    pose proof (upgrade_exact so u sn vo target ups Hu Hf d rest Ho Hr Hk f Hl) as Hx.
+    eexists. split; [rewrite Hx; reflexivity|].
+    exact (upgrade_crash_states so u sn vo target ups Hu Hf d rest Ho Hr Hk f k Hl).
+  Qed.
+
+  Theorem copy_crash_retry_inst olds ups sn target vo so d rest f k y :
+    upgrade_inst_ok olds ups sn target = true -> In (vo, so) olds ->
+    same_objs (objects d) (created so) = true -> version_rows d = vo :: rest ->
+    fk_ok (payload d) = true -> lookup Main f = Some (Db d) ->
+    let m := get_db sn ups target in
+    let fk := run_prefix k m f in
+    lookup (Backup vo) fk = Some y -> y <> Db d ->
+    lookup Main fk = Some (Db d) /\
+    fst (run_all m fk) = fst (run_all m f) /\
+    (exists d', fst (run_all m fk) = inl d' /\ lookup Main (snd (run_all m fk)) = Some (Db d')) /\
+    lookup (Backup vo) (snd (run_all m fk)) = Some (Db d).
+  Proof.
+    intros Hi Hin. destruct (upgrade_inst_parts _ _ _ _ Hi) as [vo' [so' [u [-> [Hu Hf]]]]].
+    destruct Hin as [E|[]]. inversion E. subst vo' so'.
+    intros Ho Hr Hk Hl m fk Hy Hne.
+    destruct (copy_crash_retry so u sn vo target ups Hu Hf d rest Ho Hr Hk f k y Hl Hy Hne) as [H1 [H2 [H3 H4]]].
+    fold m fk in H1, H2, H3, H4.
+    split; [exact H1|]. split; [|split; [eauto|exact H4]].
+    rewrite H2. unfold m.
+    now rewrite (upgrade_exact so u sn vo target ups Hu Hf d rest Ho Hr Hk f Hl).
+  Qed.
 End Facts.
 
 (** * D13: the upgrade script as it was before the repair (statement by
@@ -1027,8 +1215,8 @@ Module D13.
   Proof. vm_compute. reflexivity. Qed.
 
   Example upgrade_crash_safe_refuted :
-    fst (run_all prog (run_prefix 7 prog f0)) = inr XSqlite /\      (* table client_versions already exists *)
-    fst (run_all prog (run_prefix 9 prog f0)) = inr XType /\        (* no version row *)
-    lookup (Backup 1) (snd (run_all prog (run_prefix 7 prog f0))) <> Some (Db old).  (* backup overwritten *)
+    fst (run_all prog (run_prefix 9 prog f0)) = inr XSqlite /\      (* table client_versions already exists *)
+    fst (run_all prog (run_prefix 11 prog f0)) = inr XType /\        (* no version row *)
+    lookup (Backup 1) (snd (run_all prog (run_prefix 9 prog f0))) <> Some (Db old).  (* backup overwritten *)
   Proof. vm_compute. repeat split; discriminate. Qed.
 End D13.
